@@ -6,16 +6,23 @@ import pipeline
 import talgen
 
 PID = 'C13'
-PROOF_MODULES = ['ChamProofs.Props.C13']
-THEOREMS = ['ChamVerif.C13_handler_exact', 'ChamVerif.C13_error_bound']
-LEVEL_TEXT = ('Proved in Lean: the handler step of tal:on-error (the `except Exception` branch of visit_OnError as modelled by '
+PROOF_MODULES = ['ChamProofs.Props.C13', 'ChamProofs.Props.C13Exact']
+THEOREMS = ['ChamVerif.C13_handler_exact', 'ChamVerif.C13_error_bound', 'ChamVerif.good_all', 'ChamVerif.good_eval', 'ChamVerif.C13_exact',
+            'ChamVerif.C13_pass_through', 'ChamVerif.C13_base_exception_propagates']
+LEVEL_TEXT = ('Proved in Lean on the whole interpreter model: rendering only appends to the output — for every node, scope, state and fuel the '
+              'evaluator leaves what was on the output stack untouched and extends the current stream at its end, also when it raises '
+              '(good_all / good_eval: induction on the fuel over all four mutually recursive functions and every node kind, macro calls, '
+              'slot fillers and translation sub-streams included); hence when the guarded element raises an Exception, tal:on-error '
+              'continues with the fallback from exactly the output before the element, with error bound and the handler called once '
+              '(C13_exact), renders the element unchanged when nothing fails (C13_pass_through) and lets exceptions outside the '
+              'Exception hierarchy through (C13_base_exception_propagates). In detail: the handler step of tal:on-error (the `except Exception` branch of visit_OnError as modelled by '
               'onErrorHandle) leaves exactly the output from before the element — whatever the element had emitted, however many '
               'translation sub-streams were open — increments the handler-call count once and binds `error` '
               '(C13_handler_exact, C13_error_bound; for the per-node saved length the code has after the D-13a fix). The node interpreter '
               'these lemmas are about is tied to the code by end-to-end correspondence (output, evaluation log, handler-call count) on '
               'generated templates with nested handlers and planted failures, and judged by an independent constructive oracle.')
-LEVEL_NOTE = ('Trusted: Lean kernel; the stream-shape premise of C13_handler_exact (output only grows; proved as eval_grows when present in '
-              'THEOREMS) ; the node interpreter as a model of the generated Python (validated by correspondence, not proved).')
+LEVEL_NOTE = ('Trusted: Lean kernel; the node interpreter as a model of the generated Python (validated by correspondence, not proved). '
+              'The theorems hold for the per-node saved length (sharedFallbackVar = false), the behaviour of /repo after the D-13a fix.')
 RULE = ('constructive family: trees of elements with tal:on-error on any subset (nesting <= 4, with omit-tag, repeat, define in between) '
         'and raising points first/middle/last, inside and after inner handlers; expected output computed by the generator. A case is '
         'non-trivial iff a handler fired after its element had already emitted output. Plus talgen templates (onerror-heavy) for '
